@@ -111,7 +111,12 @@ func genProgram(seed int64, flavour string, drained bool, writers int, ntx int) 
 		minKeys, maxKeys = 3, 6
 		p.Cfg.MemtableByteThreshold = []int{4000, 12000, 30000}[r.Intn(3)]
 		p.Cfg.DataBlockByteThreshold = []int{200, 4096}[r.Intn(2)]
-		valPad = func() int { return 800 + r.Intn(2400) }
+		valPad = func() int {
+			if r.Intn(4) == 0 {
+				return 4000 + r.Intn(5000) // a single value larger than a 4 KiB I/O buffer
+			}
+			return 800 + r.Intn(2400)
+		}
 	}
 	p.Txns = make([][]crashTxn, writers)
 	for w := 0; w < writers; w++ {
@@ -1043,7 +1048,9 @@ func genCrash(focus, tier string, seed int64) []core.Case {
 			seqEvery, depth3 = 8, 1
 		}
 	case "C04":
+		seqEvery = 8
 		if quick {
+			seqEvery = 24
 			add(2, spec{"multikey", 1, 1, 22, 8, 1})
 			add(1, spec{"bigtxn", 1, 1, 14, 8, 1})
 			add(1, spec{"deep", 1, 1, 36, 8, 1})
@@ -1061,6 +1068,7 @@ func genCrash(focus, tier string, seed int64) []core.Case {
 		if quick {
 			add(2, spec{"plain", 1, 1, 16, 8, 1})
 			add(1, spec{"multikey", 1, 1, 12, 8, 1})
+			add(1, spec{"bigtxn", 1, 1, 10, 8, 1})
 			add(1, spec{"plain", 0, 1, 16, 8, 2})
 		} else {
 			add(8, spec{"plain", 1, 1, 30, 16, 1})
@@ -1204,7 +1212,7 @@ func init() {
 	})
 	core.Register(&core.Check{
 		Prop: "C04", Level: "fault_enumeration",
-		Rule:     common + "; programs are biased to 3-6-key transactions and to memtable thresholds that make a transaction straddle a rotation; rule: among the keys of the transaction whose CALL has no ACK, new and old values must not both occur; evidence counts crash points (evaluations); non-trivial = crash point that fell between CALL and ACK of a transaction writing >=2 keys; distinct by (program, kill index)",
+		Rule:     common + "; programs are biased to 3-6-key transactions and to memtable thresholds that make a transaction straddle a rotation; rules: among the keys of the transaction whose CALL has no ACK, new and old values must not both occur; among the keys whose last acknowledged writer is one transaction, all read its writes or none does; at every 24th (quick) / 8th (thorough) crash point the recovery is itself killed before each of its operations and recovered again; evidence counts crash points (evaluations); non-trivial = crash point that fell between CALL and ACK of a transaction writing >=2 keys; distinct by (program, kill index)",
 		Gen:      func(tier string, seed int64) []core.Case { return genCrash("C04", tier, seed) },
 		Run:      func(c core.Case) core.Result { return runCrashCase(c, "C04") },
 		Post:     crashPost("C04"),
